@@ -262,12 +262,22 @@ def accept_oracle(prop, ops, sig):
     return out
 
 
+def store_complete(line):
+    """the `st` line names every live entity (an entity whose world-level `spawn` ended in a panic - a `Single` that did
+    not match in a Spawn handler, say - is alive but never got an ordinal, so the line cannot show it)"""
+    m = re.match(r"st n=(\d+)", line)
+    if not m or "?" in line:
+        return False
+    live = len(re.findall(r"#\d+=\{", line))
+    return live == int(m.group(1))
+
+
 def _unchanged_store(ops, i):
     if i == 0:
         return None
     a = lines_of(ops[i - 1][1], "st ")
     b = lines_of(ops[i][1], "st ")
-    if a and b and a[0] == b[0] and "?" not in a[0]:
+    if a and b and a[0] == b[0] and store_complete(a[0]):
         return oracle.parse_store(a[0])
     return None
 
@@ -385,7 +395,7 @@ def cascade_oracle(prop, ops, sig):
         k = op.split(" ")[1]
         prev = ops[i - 1][1]
         st, reg = lines_of(prev, "st "), lines_of(prev, "reg ")
-        if not st or not reg or "?" in st[0]:
+        if not st or not reg or not store_complete(st[0]):
             continue
         m = re.match(r"reg c:(\S*) e:(\S*) h:(\S*) stale=", reg[0])
         if not m:
